@@ -148,3 +148,110 @@ class PedMendel(DPCheck):
 
 
 SUBCHECKS = {c.name: c for c in [PedMendel()]}
+
+
+# ---------------------------------------------------------------------------
+# (b) variants with a conflict / missing genotype never reach the solver
+# ---------------------------------------------------------------------------
+from vf.runner import SubCheck
+from vf.pysym.loader import SymWorld
+
+GT_CLASSES = {"0/0": [0, 0], "0/1": [0, 1], "1/1": [1, 1], "./.": []}
+
+
+class PedFilter(SubCheck):
+    name = "ped_filter"
+    encoded = ["whatshap.cli.phase.find_phaseable_variants", "find_mendelian_conflicts", "whatshap.pedigree.mendelian_conflict", "VariantTable.remove_rows_by_index / genotypes_of"]
+    sources = ["whatshap/cli/phase.py", "whatshap/pedigree.py", "whatshap/vcf.py"]
+    stubs = ["whatshap.core.Genotype: vf/models/core_model.py in the symbolic run, compiled class in the replay", "whatshap.cli package import stubbed (CommandLineError only)"]
+    assumptions = ["diploid biallelic genotypes (what whatshap phase accepts)", "a variant absent from the phasable table is written unphased for all family members (C04: only positions present in components/super reads get phased)"]
+    required_cover = ["conflict variant", "missing genotype variant", "consistent variant retained", "homozygous parent"]
+
+    def shapes(self, tier):
+        out = [dict(fam="trio", nvar=1), dict(fam="trio", nvar=2), dict(fam="quartet", nvar=1)]
+        if tier != "quick":
+            out.append(dict(fam="quartet", nvar=2, only_child2_varies=True))
+            out.append(dict(fam="trio", nvar=3, first_fixed=True))
+        return out
+
+    def bounds(self, tier):
+        return "trio with 1-2 (thorough: 3) variants and two-child quartet with 1 (2) variants; each member's genotype solver-chosen from {0/0, 0/1, 1/1, missing}; include_homozygous on/off"
+
+    def setup(self):
+        import types
+        from vf.models import core_model
+
+        climod = types.ModuleType("whatshap.cli")
+        climod.__path__ = []
+        climod.CommandLineError = type("CommandLineError", (Exception,), {})
+        climod.log_memory_usage = lambda *a, **k: None
+        climod.PhasedInputReader = None
+        w = SymWorld(overrides={"whatshap.core": core_model, "whatshap.cli": climod, "whatshap.readselect": types.SimpleNamespace(readselection=None)})
+        self.sym = dict(phase=w.load("whatshap.cli.phase"), vcf=w.load("whatshap.vcf"), ped=w.load("whatshap.pedigree"), core=core_model)
+        from vf import build
+
+        build.load_real(["core"])
+        import whatshap.cli.phase as rp, whatshap.vcf as rv, whatshap.pedigree as rped, whatshap.core as rc
+
+        self.real = dict(phase=rp, vcf=rv, ped=rped, core=rc)
+
+    def sym_impl(self):
+        return self.sym
+
+    def real_impl(self):
+        return self.real
+
+    def harness(self, e, shape, impl):
+        phase, vcf, ped, core = impl["phase"], impl["vcf"], impl["ped"], impl["core"]
+        members = ["f", "m", "c1"] + (["c2"] if shape["fam"] == "quartet" else [])
+        trios = [ped.Trio(child="c1", father="f", mother="m")] + ([ped.Trio(child="c2", father="f", mother="m")] if shape["fam"] == "quartet" else [])
+        nvar = shape["nvar"]
+        vt = vcf.VariantTable("chr1", members)
+        cls = []
+        for v in range(nvar):
+            row = []
+            for s in members:
+                if (shape.get("first_fixed") and v == 0) or (shape.get("only_child2_varies") and v == 0 and s != "c2"):
+                    k = "0/1"
+                else:
+                    k = e.choice("gt_%d_%s" % (v, s), sorted(GT_CLASSES))
+                row.append(k)
+            cls.append(row)
+            vt.add_variant(vcf.BiallelicVcfVariant(100 * (v + 1), "A", "C"), [core.Genotype(GT_CLASSES[k]) for k in row], [None] * len(members), [None] * len(members), [None] * len(members))
+        include_hom = bool(e.bit("include_homozygous"))
+        try:
+            hom_positions, table = phase.find_phaseable_variants(members, include_hom, trios, vt)
+        except Exception as ex:
+            e.check(False, "find_phaseable_variants raised %s on a family with conflicting/missing genotypes instead of leaving the variant unphased" % type(ex).__name__, lambda: dict(genotypes=cls))
+            return
+        kept = [v.position for v in table.variants]
+        e.out("kept", kept)
+        e.out("hom", sorted(hom_positions))
+        for v in range(nvar):
+            pos = 100 * (v + 1)
+            row = dict(zip(members, cls[v]))
+            missing = any(k == "./." for k in row.values())
+            conflict = False
+            for t in trios:
+                gf, gm, gc = GT_CLASSES[row[t.father]], GT_CLASSES[row[t.mother]], GT_CLASSES[row[t.child]]
+                if gf and gm and gc and not any(sorted((a, b)) == sorted(gc) for a in gf for b in gm):
+                    conflict = True
+            if conflict:
+                e.cover("conflict variant")
+                e.check(pos not in kept, "a variant with a Mendelian conflict is handed to the solver", lambda: dict(genotypes=row))
+            if missing:
+                e.cover("missing genotype variant")
+                e.check(pos not in kept, "a variant with a missing genotype in the family is handed to the solver", lambda: dict(genotypes=row))
+            anyhet = any(row[t.child] == "0/1" for t in trios)  # the statement speaks of child-heterozygous variants
+            if not conflict and not missing and anyhet:
+                e.cover("consistent variant retained")
+                e.check(pos in kept, "a Mendelian-consistent child-heterozygous variant is not handed to the solver", lambda: dict(genotypes=row))
+                if any(k in ("0/0", "1/1") for k in row.values()):
+                    e.cover("homozygous parent")
+                    e.check(pos in hom_positions, "a retained variant that is homozygous in a family member is missing from the genetic-haplotyping positions", lambda: dict(genotypes=row))
+        for p in hom_positions:
+            e.check(p in kept, "genetic-haplotyping position that is not among the phasable variants", lambda: dict(hom=list(hom_positions), kept=kept))
+        e.check(len(table.genotypes_of("c1")) == len(kept), "phasable table rows inconsistent", None)
+
+
+SUBCHECKS["ped_filter"] = PedFilter()
